@@ -33,4 +33,8 @@ def handle : List Sx → Sx
       .list [.atom "ok", .str (String.ofList (unparse cfg segs)), .list ((trimSpec cfg segs .nothing true).map encPiece)]
     | _, _ => Sx.bad
   | _ => Sx.bad
+/-- request names served by this module (collected into `JinjaV.Wire.All` by tools/gen_wire_all.py) -/
+def handlers : List (String × (List Sx → Sx)) :=
+  [("trim", handle)]
+
 end JinjaV.Wire.Trim
